@@ -295,6 +295,160 @@ static int walk(const json &plan) {
     return failures ? 1 : (orphan ? 2 : 0);
 }
 
+
+// ---------------------------------------------------------------- walkpair (C06)
+// The product state graph of Pair.tla: two objects per family, operator== and != after
+// every step, copy construction and assignment.
+struct PairRep {
+    std::vector<std::unique_ptr<IObj>> a, b;
+    std::shared_ptr<Hist> hist;
+    std::string sig;
+};
+static int walkpair(const json &plan) {
+    const std::string group = plan.at("group");
+    const size_t maxReps = plan.value("reps", 2);
+    const size_t maxFail = plan.value("max_fail", 3);
+    const std::string replayDir = plan.value("replay_dir", std::string("."));
+    const std::string tag = plan.value("tag", group);
+    installCrashNote(plan.value("crash_note", std::string()));
+    auto &facs = registry()[group];
+    if (facs.empty())
+        return 2;
+    std::unordered_map<std::string, std::vector<PairRep>> states;
+    {
+        PairRep r;
+        for (auto &f : facs) {
+            r.a.push_back(f());
+            r.b.push_back(f());
+        }
+        json key = json::array({r.a[0]->enc(), r.b[0]->enc()});
+        states[key.dump()].push_back(std::move(r));
+    }
+    size_t transitions = 0, executions = 0, failures = 0, copies = 0, eqTrue = 0, eqFalse = 0, repsStored = 1;
+    json replays = json::array(), failNotes = json::array(), samples = json::array();
+    std::vector<json> pending;
+    auto process = [&](const json &tr) -> bool {
+        std::string fromKey = tr.at("from").dump();
+        auto it = states.find(fromKey);
+        if (it == states.end())
+            return false;
+        ++transitions;
+        const json &act = tr.at("act");
+        const std::string toKey = tr.at("to").dump();
+        const bool isCopy = act.at("kind") == "copy";
+        if (isCopy)
+            ++copies;
+        if (tr.at("eq").at("e12").get<bool>())
+            ++eqTrue;
+        else
+            ++eqFalse;
+        if (samples.size() < 3 && transitions % 211 == 7)
+            samples.push_back({{"from", tr["from"]}, {"act", act}, {"to", tr["to"]}, {"eq", tr["eq"]}});
+        size_t nreps = it->second.size();
+        for (size_t ri = 0; ri < nreps; ++ri) {
+            PairRep &rep = states[fromKey][ri];
+            PairRep next;
+            next.hist = std::make_shared<Hist>(Hist{rep.hist, act.dump()});
+            bool allOk = true;
+            for (size_t fam = 0; fam < rep.a.size(); ++fam) {
+                ++executions;
+                setCurrent(json({{"kind", "walkpair"}, {"group", group}, {"family_index", fam},
+                                 {"history", histToJson(rep.hist)}, {"act", act}}).dump());
+                std::unique_ptr<IObj> x = rep.a[fam]->clone(), y = rep.b[fam]->clone();
+                std::string why;
+                if (isCopy) {
+                    IObj &src = act.at("src") == 1 ? *x : *y;
+                    if (act.at("how") == "construct") {
+                        std::unique_ptr<IObj> c = src.clone(); // copy constructor
+                        if (act.at("dst") == 1)
+                            x = std::move(c);
+                        else
+                            y = std::move(c);
+                    } else {
+                        if (act.at("dst") == 1)
+                            x->assignFrom(src);
+                        else
+                            y->assignFrom(src);
+                    }
+                } else {
+                    IObj &o = act.at("obj") == 1 ? *x : *y;
+                    std::string out = o.apply(act.at("c"));
+                    if (out != "ok")
+                        why = "call outcome " + out;
+                }
+                json ex = x->enc(), ey = y->enc();
+                bool e12 = x->equals(*y), e21 = y->equals(*x), e11 = x->equals(*x), e22 = y->equals(*y);
+                const json &eq = tr.at("eq");
+                if (why.empty() && (ex != tr.at("to")[0] || ey != tr.at("to")[1]))
+                    why = "states differ: expected " + tr.at("to").dump() + " got " + json::array({ex, ey}).dump();
+                else if (why.empty() && (e12 != eq.at("e12").get<bool>() || e21 != eq.at("e21").get<bool>() ||
+                                         e11 != eq.at("e11").get<bool>() || e22 != eq.at("e22").get<bool>()))
+                    why = "operator== : expected " + eq.dump() + " got " +
+                          json({{"e12", e12}, {"e21", e21}, {"e11", e11}, {"e22", e22}}).dump();
+                else if (why.empty() && (x->differs(*y) == e12 || y->differs(*x) == e21 || x->differs(*x) == e11))
+                    why = "operator!= is not the negation of operator==";
+                if (!why.empty()) {
+                    allOk = false;
+                    ++failures;
+                    if (replays.size() < maxFail) {
+                        json r = {{"kind", "walkpair"}, {"group", group}, {"family_index", fam},
+                                  {"family", rep.a[fam]->family()}, {"history", histToJson(rep.hist)}, {"act", act},
+                                  {"expected", {{"to", tr["to"]}, {"eq", tr["eq"]}}}, {"why", why}};
+                        std::string path = replayDir + "/" + tag + "-" + std::to_string(replays.size()) + ".json";
+                        std::ofstream(path) << r.dump(1) << "\n";
+                        replays.push_back(path);
+                        failNotes.push_back(rep.a[fam]->family() + ": " + act.dump() + ": " + why);
+                    }
+                }
+                next.a.push_back(std::move(x));
+                next.b.push_back(std::move(y));
+            }
+            if (allOk) {
+                auto &vec = states[toKey];
+                if (vec.size() < maxReps) {
+                    next.sig = next.a[0]->exact().dump() + next.b[0]->exact().dump();
+                    bool dup = false;
+                    for (auto &r : vec)
+                        if (r.sig == next.sig)
+                            dup = true;
+                    if (!dup) {
+                        vec.push_back(std::move(next));
+                        ++repsStored;
+                    }
+                }
+            }
+        }
+        return true;
+    };
+    std::string line;
+    json tr;
+    while (std::getline(std::cin, line)) {
+        if (!parseLine(line, tr) || !tr.contains("from") || !tr.contains("act"))
+            continue;
+        if (!process(tr))
+            pending.push_back(tr);
+    }
+    for (int round = 0; round < 50 && !pending.empty(); ++round) {
+        std::vector<json> still;
+        for (auto &p : pending)
+            if (!process(p))
+                still.push_back(p);
+        if (still.size() == pending.size())
+            break;
+        pending.swap(still);
+    }
+    json fams = json::array();
+    for (auto &f : facs)
+        fams.push_back(f()->family());
+    json summary = {{"mode", "walkpair"}, {"group", group}, {"families", fams}, {"transitions", transitions},
+                    {"executions", executions}, {"states", states.size()}, {"representatives", repsStored},
+                    {"copy_transitions", copies}, {"eq_true", eqTrue}, {"eq_false", eqFalse},
+                    {"failures", failures}, {"orphan_transitions", pending.size()}, {"replays", replays},
+                    {"fail_notes", failNotes}, {"samples", samples}};
+    std::cout << "SUMMARY " << summary.dump() << std::endl;
+    return failures ? 1 : (pending.empty() ? 0 : 2);
+}
+
 // ---------------------------------------------------------------- record
 static int record(const json &plan) {
     const std::string group = plan.at("group");
@@ -439,7 +593,42 @@ static int record(const json &plan) {
 }
 
 // ---------------------------------------------------------------- replay
+static int replayPair(const json &r) {
+    auto &facs = registry()[r.at("group").get<std::string>()];
+    size_t fam = r.value("family_index", 0);
+    if (fam >= facs.size())
+        return 2;
+    std::unique_ptr<IObj> x = facs[fam](), y = facs[fam]();
+    std::cout << "family: " << x->family() << "\n";
+    auto doAct = [&](const json &act) {
+        if (act.at("kind") == "copy") {
+            IObj &src = act.at("src") == 1 ? *x : *y;
+            if (act.at("how") == "construct") {
+                auto c = src.clone();
+                (act.at("dst") == 1 ? x : y) = std::move(c);
+            } else
+                (act.at("dst") == 1 ? *x : *y).assignFrom(src);
+        } else if (act.at("kind") == "call")
+            (act.at("obj") == 1 ? *x : *y).apply(act.at("c"));
+        std::cout << "  " << act.dump() << "  ->  a==b:" << x->equals(*y) << " b==a:" << y->equals(*x)
+                  << " a!=b:" << x->differs(*y) << "\n";
+    };
+    for (auto &a : r.at("history"))
+        doAct(a);
+    doAct(r.at("act"));
+    std::cout << "a: " << x->enc().dump() << "\nb: " << y->enc().dump() << "\nexpected: "
+              << r.at("expected").dump() << "\n";
+    const json &eq = r.at("expected").at("eq");
+    bool same = x->enc() == r.at("expected").at("to")[0] && y->enc() == r.at("expected").at("to")[1] &&
+                x->equals(*y) == eq.at("e12").get<bool>() && y->equals(*x) == eq.at("e21").get<bool>() &&
+                x->equals(*x) && y->equals(*y) && x->differs(*y) != x->equals(*y);
+    std::cout << (same ? "REPLAY: conforms" : "REPLAY: diverges") << "\n";
+    return same ? 0 : 1;
+}
+
 static int replay(const json &r) {
+    if (r.value("kind", std::string()) == "walkpair")
+        return replayPair(r);
     const std::string group = r.at("group");
     size_t fam = r.value("family_index", 0);
     auto &facs = registry()[group];
@@ -493,6 +682,8 @@ int main(int argc, char **argv) {
     }
     if (mode == "walk")
         return walk(plan);
+    if (mode == "walkpair")
+        return walkpair(plan);
     if (mode == "record")
         return record(plan);
     if (mode == "replay")
